@@ -71,6 +71,7 @@ type FuncContract struct {
 	Trusted  bool
 	Inline   bool
 	Opts     map[string]bool
+	Serves   []string
 	Where    string
 	File     *SpecFile
 }
@@ -117,7 +118,7 @@ var clauseKeywords = map[string]bool{
 	"package": true, "import": true, "pure": true, "ghost": true, "axiom": true, "lemma": true,
 	"func": true, "iface": true, "extern": true, "callback": true, "funcfield": true,
 	"requires": true, "ensures": true, "modifies": true, "loop": true, "call": true, "let": true,
-	"trusted": true, "inline": true, "opt": true,
+	"trusted": true, "inline": true, "opt": true, "serves": true,
 }
 
 var labelRe = regexp.MustCompile(`^\[([^\]]*)\]\s*`)
@@ -304,6 +305,10 @@ func (sp *Specs) loadFile(path, pkgPath string) error {
 				sp.Scan = append(sp.Scan, fmt.Sprintf("trusted %s.%s (%s)", pkgPath, cur.Name, where))
 			case "inline":
 				cur.Inline = true
+			case "serves":
+				for _, o := range strings.FieldsFunc(rest, func(r rune) bool { return r == ',' || r == ' ' }) {
+					cur.Serves = append(cur.Serves, o)
+				}
 			case "opt":
 				for _, o := range strings.Fields(rest) {
 					cur.Opts[o] = true
